@@ -343,6 +343,17 @@ def C18(rep, prog, tier):
     preocf.tpo_order(rep, ex)
 
 
+def C20(rep, prog, tier):
+    rep.explanation = ("C20 (three clauses): SAVE.restore (typestate with exceptional exits: detached solver state is back on every "
+                       "exit of save_ocf), IMPACTS.keys (writer/reader key agreement, size check before assignment), FORMAT.agree "
+                       "(decision tables of saver and loader over suffix classes x fmt). Pickling across interpreters and equality of "
+                       "continued lazy computation are not decided")
+    ex = Explorer(prog, rep)
+    preocf.save_restore(rep, ex)
+    preocf.impacts_keys(rep, ex)
+    preocf.format_agree(rep, ex)
+
+
 def C06(rep, prog, tier):
     rep.explanation = ("C06: tolerance-partition obligations PART.* on consistency/consistency_indices (scope of every "
                        "satisfiability test, split, balance, terminal decisions, advance, siblings); diagnostics flags; refusal")
@@ -354,4 +365,4 @@ def C06(rep, prog, tier):
     wrappers.shortcut_dominance(rep, ex)
 
 
-CHECKS = {"C01": C01, "C02": C02, "C03": C03, "C04": C04, "C05": C05, "C06": C06, "C07": C07, "C09": C09, "C11": C11, "C12": C12, "C13": C13, "C14": C14, "C16": C16, "C17": C17, "C18": C18, "C15": C15}
+CHECKS = {"C01": C01, "C02": C02, "C03": C03, "C04": C04, "C05": C05, "C06": C06, "C07": C07, "C09": C09, "C11": C11, "C12": C12, "C13": C13, "C14": C14, "C16": C16, "C17": C17, "C18": C18, "C20": C20, "C15": C15}
